@@ -25,19 +25,20 @@ Theorem c02_family_exact : forall g U,
   forall th : R, channel (RC th) nou (basis_terms g) = ptm_unitary2 (RC th) U.
 Proof. exact family_exact. Qed.
 
-(* the fixed gates; cs/csx are the crz/crx bases at θ' = π/8, csdg/csxdg at θ' = -π/8 *)
+(* the fixed gates; cs/csx are the crz/crx bases at θ' = π/8, csdg/csxdg at θ' = -π/8.  The first eight use
+   neither cos θ' nor sin θ' (only 1/sqrt 2), so they are stated at RC 0 *)
 Theorem c02_fixed_exact :
   (forall g U, In (g, U) [("cx", U_cx); ("cy", U_cy); ("cz", U_cz); ("ch", U_ch); ("ecr", U_ecr);
                           ("swap", U_swap); ("iswap", U_iswap); ("dcx", U_dcx)] ->
-     forall th : R, channel (RC th) nou (basis_terms g) = ptm_unitary2 (RC th) U) /\
+     channel (RC 0) nou (basis_terms g) = ptm_unitary2 (RC 0) U) /\
   (forall g U, In (g, U) [("cs", U_cs); ("csx", U_csx)] ->
      channel (RC (PI / 8)) nou (basis_terms g) = ptm_unitary2 (RC (PI / 8)) U) /\
   (forall g U, In (g, U) [("csdg", U_csdg); ("csxdg", U_csxdg)] ->
      channel (RC (- (PI / 8))) nou (basis_terms g) = ptm_unitary2 (RC (- (PI / 8))) U).
-Proof. exact (conj fixed_exact (conj fixed8p_exact fixed8m_exact)). Qed.
+Proof. exact (conj (fun g U H => fixed_exact g U H 0%R) (conj fixed8p_exact fixed8m_exact)). Qed.
 
-Theorem c02_move_exact : forall th : R, channel (RC th) nou (basis_terms "move") = ptm_move (RC th).
-Proof. exact move_exact. Qed.
+Theorem c02_move_exact : channel (RC 0) nou (basis_terms "move") = ptm_move (RC 0).
+Proof. exact (move_exact 0%R). Qed.
 
 (* the 58-term basis of _nonlocal_qpd_basis_from_u, for every u ∈ C⁴ (u_k = x_{2k} + i x_{2k+1});
    A(u) = u0 II + u1 XX + u2 YY + u3 ZZ; no unitarity needed *)
@@ -65,8 +66,14 @@ Proof. exact kak_dressing. Qed.
 Theorem c02_kak_model : resolve kak_basis = dress_terms (resolve (nonlocal_basis u_from_thetavec)).
 Proof. exact kak_model_is_dressing. Qed.
 
-(* KAK path end to end: for all Weyl coordinates and all local PTMs *)
-Theorem c02_kak_exact : forall (a b c : R) (uenv : nat -> list (list R)),
+(* KAK path, PARTIAL.  Proved: for all real Weyl coordinates a,b,c and arbitrary real 4x4 matrices uenv 0..3 standing
+   for the PTMs of K2r, K1r, K2l, K1l, the modelled KAK basis sums to  kron(u3,u1) · PTM(Uweyl(a,b,c)) · kron(u2,u0).
+   MISSING for "equals the channel of the instruction itself" (not proved, assumed — see lib/props.d/C02.py):
+   (a) O-KAK: the instruction's matrix ∝ (K1l⊗K1r)·Uweyl(a,b,c)·(K2l⊗K2r) for the values TwoQubitWeylDecomposition returns;
+   (b) uenv k = ptm1 of the unitary K_k;  (c) PTM functoriality: ptm2(U·V) = ptm2 U · ptm2 V, ptm2(A⊗B) = kron(ptm1 A)(ptm1 B),
+   invariance under a global phase;  (d) Uweyl, DEFINED as the product of the three factors cos t + i sin t P⊗P, equals
+   exp(i(aXX+bYY+cZZ)).  The harness checks the composite numerically on every KAK case (PTM residual <= 1e-9). *)
+Theorem c02_kak_exact_partial : forall (a b c : R) (uenv : nat -> list (list R)),
   (forall k, wf4 (uenv k)) ->
   let C := RCoef (env3 a b c) in
   channel C uenv (resolve kak_basis)
@@ -76,12 +83,18 @@ Proof. exact kak_exact. Qed.
 
 (* sanity of the specifications: Move as defined (reset qubit 1; swap) has the Kraus operators used
    above; the only hand-written PTMs (RY(±π/4), whose half angle is not in Q[c,s,r]) agree with the PTM of
-   the RY unitary over Q[r][cos π/8]; the closed-form rotation PTMs agree with the unitaries *)
+   the RY unitary over Q[r][cos π/8]; the closed-form rotation PTMs (rx/ry/rz_direct, and P = RZ as channels) agree
+   with the PTMs of the unitaries.  Boolean identities over the rings K / K8 (not lifted to R) *)
 Theorem c02_spec_sanity :
   meqb K (mmul K (ptm_unitary2 K U_swap) (kron K (ptm_op K nou OReset) (ident K 4%nat))) (ptm_move K) = true /\
   (meqb (K8 true) (ptm_op (K8 true) nou (ORY QuartPiP)) (ptm_op (K8 true) nou (ORY Th2P)) = true /\
-   meqb (K8 false) (ptm_op (K8 false) nou (ORY QuartPiM)) (ptm_op (K8 false) nou (ORY Th2P)) = true).
-Proof. exact (conj move_as_defined ry_quarter_ok). Qed.
+   meqb (K8 false) (ptm_op (K8 false) nou (ORY QuartPiM)) (ptm_op (K8 false) nou (ORY Th2P)) = true) /\
+  forallb (fun a => meqb K (mmap (ceval K) (let '(c, s) := full_cs a in rx_direct c s)) (ptm_op K nou (ORX a))
+                 && meqb K (mmap (ceval K) (let '(c, s) := full_cs a in ry_direct c s)) (ptm_op K nou (ORY a))
+                 && meqb K (mmap (ceval K) (let '(c, s) := full_cs a in rz_direct c s)) (ptm_op K nou (ORZ a))
+                 && meqb K (ptm_op K nou (OP a)) (ptm_op K nou (ORZ a)))
+          [Th2P; Th2M; HalfPiP; HalfPiM] = true.
+Proof. exact (conj move_as_defined (conj ry_quarter_ok direct_rotations_ok)). Qed.
 
 (* refusals: unregistered and not a two-qubit gate; unbound parameter; to_matrix failure —
    and nothing else is refused *)
@@ -112,18 +125,50 @@ Proof. exact dispatch_eq_basis_of. Qed.
    (−θ/2, θ/4, ±π/8), rotation/phase parameters equal to 2·theta_prime (angles_ok) — decomposes the gate's own
    unitary Ugate n θ, written in the gate angle (cos θ/2, sin θ/2; 4π-periodic for crx/cry/crz) *)
 Theorem c02_dispatch_exact : forall n, In n gate_names19 -> forall th : R,
-  exists b a, qpd_model (std_gate n) = Ok (b, a) /\ angles_ok a /\
+  exists b a, qpd_model (std_gate n) = Ok (b, a) /\ angles_ok a /\ symbols_bound (b, a) = true /\
               channel (RC (thp_of n th)) nou (resolve b) = gate_ptm n th.
 Proof. exact dispatch_exact. Qed.
+(* symbols_bound: the θ-dependent rotation / phase symbols occur among the operations of b exactly when the function
+   recorded their meaning in a (a_rot / a_phase), so angles_ok speaks about operations that are really in the basis *)
 
-Theorem c02_dispatch_move_exact : forall th : R,
+Theorem c02_dispatch_move_exact :
   exists b, qpd_model (mkG "move" false 2%nat true false false) = Ok (b, no_angles) /\
-            channel (RC th) nou (resolve b) = ptm_move (RC th).
+            channel (RC 0) nou (resolve b) = ptm_move (RC 0).
 Proof. exact dispatch_move_exact. Qed.
 
-(* non-vacuity: the names are the 19 registered gates; the CRX target really is 4π-periodic only *)
-Example c02_ex_dispatch_names : gate_names19 ++ ["move"] = map fst registry \/ length gate_names19 = 19%nat.
-Proof. right. reflexivity. Qed.
+(* the unregistered branch of the dispatcher, and refusals through the dispatcher *)
+Theorem c02_dispatch_kak : forall g, ~ In (g_name g) registered ->
+  g_is_gate g = true -> g_nq g = 2%nat -> g_matrix_ok g = true -> qpd_model g = Ok (kak_basis, no_angles).
+Proof. exact dispatch_kak. Qed.
+Theorem c02_dispatch_refused : forall g, basis_of g = Refused <-> qpd_model g = Refused.
+Proof. exact dispatch_refused. Qed.
+
+(* non-vacuity: the 19 names + move are exactly the registered names; the CRX target really is 4π-periodic only *)
+Example c02_ex_dispatch_names : incl gate_names19 registered /\ incl registered ("move" :: gate_names19).
+Proof. exact names_are_registered. Qed.
+Example c02_ex_dispatch_kak : qpd_model (mkG "my_unitary" true 2%nat true true false) = Ok (kak_basis, no_angles).
+Proof. reflexivity. Qed.
+(* the angles each function computes, read off the model *)
+Example c02_ex_angles :
+  map (fun n => match qpd_model (std_gate n) with
+                | Ok (_, a) => (n, option_map show_aexpr (a_thp a), option_map show_aexpr (a_rot a), option_map show_aexpr (a_phase a))
+                | _ => (n, None, None, None) end) ["rxx"; "crx"; "cp"; "csdg"; "csx"; "cx"]
+  = [("rxx", Some "div2(neg(theta))", None, None);
+     ("crx", Some "div2(neg(div2(neg(theta))))", Some "neg(div2(neg(theta)))", None);
+     ("cp", Some "div2(neg(div2(neg(theta))))", Some "neg(div2(neg(theta)))", Some "div2(theta)");
+     ("csdg", Some "div2(neg(div2(neg(neg(pihalf)))))", Some "neg(div2(neg(neg(pihalf))))", None);
+     ("csx", Some "div2(neg(div2(neg(pihalf))))", Some "neg(div2(neg(pihalf)))", None);
+     ("cx", None, None, None)].
+Proof. reflexivity. Qed.
+(* KAK: a concrete instance over Q[r] (Weyl cos/sin = 3/5,4/5; 5/13,12/13; 8/17,15/17; locals = PTMs of H,S,SX,T):
+   the identity of c02_kak_exact_partial holds, is not the identity channel, and has an entry (833/4225)/sqrt 2;
+   and the hypothesis wf4 is satisfiable by PTMs of actual gates over R *)
+Example c02_ex_kak_nontrivial :
+  meqb Cq_kak kak_lhs kak_rhs = true /\ meqb Cq_kak kak_lhs (ident Cq_kak 16%nat) = false /\
+  nth 6%nat (nth 9%nat kak_lhs []) (r0 QR) = (0%Q, (833 # 4225)%Q).
+Proof. exact kak_instance. Qed.
+Example c02_ex_kak_hypothesis : forall k, wf4 (uenv_gates k).
+Proof. exact kak_hyp_satisfiable. Qed.
 Example c02_ex_crx_not_2pi_periodic :
   fst (nth 1%nat (nth 1%nat (Ugate "crx" 0) []) (0%R, 0%R)) = 1%R /\
   fst (nth 1%nat (nth 1%nat (Ugate "crx" (2 * PI)) []) (0%R, 0%R)) = (-1)%R.
@@ -178,13 +223,15 @@ Print Assumptions c02_nonlocal_exact.
 Print Assumptions c02_u_from_thetavec.
 Print Assumptions c02_kak_dressing.
 Print Assumptions c02_kak_model.
-Print Assumptions c02_kak_exact.
+Print Assumptions c02_kak_exact_partial.
 Print Assumptions c02_spec_sanity.
 Print Assumptions c02_refusal.
 Print Assumptions c02_missing_param_crashes.
 Print Assumptions c02_dispatch_is_basis_of.
 Print Assumptions c02_dispatch_exact.
 Print Assumptions c02_dispatch_move_exact.
+Print Assumptions c02_dispatch_kak.
+Print Assumptions c02_dispatch_refused.
 Print Assumptions c02_registry_groups.
 Print Assumptions c02_angle_flow.
 Print Assumptions c02_registry.
